@@ -5,7 +5,8 @@
 (* virtual reactor clock, against the property level of MomentFire.        *)
 (* One line per event:                                                     *)
 (*  top level: "cfg":{"start":s,"nodes":{"t0.a":{"kind":..,"events":[..]}}} *)
-(*  {"ev":"Init|Boot|Tick|Advance|Dispatch|Complete|NewTarget",            *)
+(*  {"ev":"Init|Boot|Tick|LateTick|Advance|Dispatch|Complete|NewTarget|   *)
+(*         Pause|Unpause",                                                 *)
 (*   "args":{"dt":n,"t":"T1","n":"t0.a"},                                  *)
 (*   "st":{"up":b,"clock":s,"timers":[s..],"targets":[..],"nbooted":n,     *)
 (*         "status":{node:".."},"nque":{node:n},"todo":{node:[..]},        *)
@@ -45,7 +46,9 @@ Bind(r) ==
     /\ queued' = [n \in Nodes |-> r.st.nque[n] > 0 /\ (todo'[n] # {} \/ exec'[n] # {})]
     /\ targets' = ToSet(r.st.targets)
     /\ booted' = IF up' THEN UNION { { <<n, e>> : e \in BootEv(n) } : n \in Nodes } ELSE {}
-    /\ env' = IF r.ev \in {"Tick", "Advance", "NewTarget"} THEN env - 1 ELSE env
+    /\ env' = IF r.ev \in {"Tick", "LateTick", "Advance", "NewTarget", "Pause", "Unpause"} THEN env - 1 ELSE env
+    \* what the operator asked for (the harness called schedule.pause() / unpause()), never read back from the code
+    /\ paused' = IF r.ev = "Pause" THEN TRUE ELSE IF r.ev = "Unpause" THEN FALSE ELSE paused
     /\ lastFire' = [n \in Nodes |-> IF Fired(n) THEN clock' ELSE lastFire[n]]
     /\ served' = ServedOf(r)
 
@@ -58,6 +61,7 @@ StepClauses(n) ==
     \cup Fail("C20.Armed",       Armed(n)')
     \cup Fail("C20.Recurs",      RecursStep(n))
     \cup Fail("C20.Once",        OnceStep(n))
+    \cup Fail("C20.CatchUp",     CatchUpStep(n))
     \* C04 on the timer path: a node without pending or executing work is not in the work queue (not even once)
     \cup Fail("C04.IdleEmpty",   (todo'[n] = {} /\ exec'[n] = {}) => Rec(tid, l + 1).st.nque[n] = 0)
 
@@ -69,6 +73,9 @@ ModelStep(r) ==
       [] r.ev = "Dispatch"  -> Dispatch \/ UNCHANGED <<status, queued, todo, exec, timers>>
       [] r.ev = "Complete"  -> Complete(r.args.n, r.args.t)
       [] r.ev = "NewTarget" -> NewTarget
+      [] r.ev = "LateTick"  -> LateTick(r.args.dt)
+      [] r.ev = "Pause"     -> Pause
+      [] r.ev = "Unpause"   -> Unpause
       [] OTHER -> TRUE
 
 TraceInit ==
@@ -84,6 +91,7 @@ TraceInit ==
        /\ targets = ToSet(r.st.targets)
     /\ booted = {} /\ lastFire = [n \in Nodes |-> -1] /\ env = 1000000
     /\ served = [n \in Nodes |-> [e \in Ev(n) |-> -1]]
+    /\ paused = FALSE
     /\ bad = {} /\ drift = FALSE
 
 TraceNext ==
